@@ -382,12 +382,40 @@ pub fn c12_cli_cases(rng: &mut Rng, tier: &str, out: &mut Out) {
 /// members routed through the links (into existing and not-yet-existing directories) must not
 /// create, truncate or append to any FILE outside the output directory. (Directories that
 /// `create_dir_all` makes through a link before the canonical check are not files; they are
-/// reported in the class but tolerated.)  Oracle only.
+/// reported in the class but tolerated.)
+///
+/// Model-compared: `c16sl_run` (Run.v) starts from the same link layout and must leave exactly the
+/// same regular files (path, content), directories and symbolic links in the WHOLE sandbox
+/// (inside and outside `out`; only the archive file `a.mla` is left out), and the same exit
+/// status.  Rows: status; `path 256 content` per file; `257 path` per directory; `258 path` per
+/// symbolic link; each group sorted by path.
+fn snapshot_rows(status_ok: bool, snap: &BTreeMap<Vec<u8>, (u8, Vec<u8>)>) -> Vec<Vec<u64>> {
+    let mut rows = vec![vec![u64::from(status_ok)]];
+    for (kind, marker) in [(0u8, 256u64), (1, 257), (2, 258)] {
+        for (p, v) in snap {
+            if v.0 != kind || p == b"a.mla" {
+                continue;
+            }
+            let path = p.iter().map(|b| *b as u64);
+            let row: Vec<u64> = if kind == 0 {
+                path.chain(std::iter::once(marker)).chain(v.1.iter().map(|b| *b as u64)).collect()
+            } else {
+                std::iter::once(marker).chain(path).collect()
+            };
+            rows.push(row);
+        }
+    }
+    rows
+}
+
 pub fn c16_symlink_cases(rng: &mut Rng, tier: &str, out: &mut Out) {
     let work = std::env::current_dir().unwrap();
     let targets: Vec<&str> = vec![
         "link/x", "link/keep.txt", "link/sub/escaped.txt", "link/sub/deeper/e2.txt", "deep/l2/y", "deep/l2/new/z", "flink",
         "link/../sibling/keep.txt", "./link/sub/a", "link//sub2//b", "inside/ok.txt", "link", "deep/l2",
+        // through a link to a FILE used as a directory, through the real directory out/deep, into an
+        // existing directory behind a link, absolute spelling of a routed name
+        "flink/x", "deep/x", "link/keepdir/k", "/flink", "deep/l2/../../flink", "deep",
     ];
     let n = if tier == "thorough" { 120 } else { 30 };
     for k in 0..n {
@@ -401,7 +429,11 @@ pub fn c16_symlink_cases(rng: &mut Rng, tier: &str, out: &mut Out) {
         }
         names.push(b"zz_benign".to_vec());
         names.sort();
-        let order: Vec<usize> = (0..names.len()).collect();
+        let mut order: Vec<usize> = (0..names.len()).collect();
+        // insertion order in the archive: random (the linear form appends in archive order)
+        for i in (1..order.len()).rev() {
+            order.swap(i, rng.below(i as u64 + 1) as usize);
+        }
         let Ok(archive) = build_named_archive(&names, &order) else { continue };
         let sb = work.join(format!("sl{k}"));
         let _ = fs::remove_dir_all(&sb);
@@ -457,9 +489,9 @@ pub fn c16_symlink_cases(rng: &mut Rng, tier: &str, out: &mut Out) {
         let msg = if bad.is_empty() { None } else { Some(format!("with symbolic links inside the output directory, extraction wrote outside it: {}", bad.join(", "))) };
         out.case(&Case {
             id: format!("c16-symlink-{k}"),
-            model_fn: "",
-            args: vec![],
-            imp: json!([]),
+            model_fn: "c16sl_run",
+            args: vec![json!(form), json!(names), json!(order), json!(listed)],
+            imp: json!(snapshot_rows(o.status.success(), &after)),
             oracle_ok: msg.is_none(),
             oracle_msg: msg.unwrap_or_default(),
             class: format!("symlinks form={} members={} status_ok={} dirs_created_outside={}", form, names.len(), o.status.success(), dirs_outside.min(3)),
